@@ -6,7 +6,7 @@
    every byte of the output was accepted."
 
    The theorems are about [render] of Model/Interp.v (the soyhtml tree walker
-   AFTER the repair of defect I4, notes/pending/C12-escaper-write-errors.diff:
+   AFTER the repair of defect I4, /repo 2f90372 = notes/applied/C12-escaper-write-errors.diff:
    htmlEscapeString returns the first write error and evalPrint checks it), for
    EVERY configuration, bundle, template, data, fuel and writer automaton
    [(cl, bl)]: [cl = Some k] fails the (k+1)-th Write call, [bl = Some b] accepts
@@ -17,7 +17,8 @@
 
    [surfaced o] is [o = Err e_write \/ o = Crash e_index]; the second case is
    the panic of Registry.LineNumber while the write error is being reported
-   (position outside the recorded source: defect I9, the subject of C06) -- the
+   (position outside the recorded source: duplicate template names, I9, or the
+   message-part positions of notes/applied/C12-msg-part-positions.diff; the subject of C06) -- the
    caller does not get a nil error in that case either. *)
 From Soy Require Import Model.Bytes Model.Num Model.Values Model.Outcome Model.Ast
   Model.Interp Spec.Writer Proofs.InterpLogic Proofs.WriterProofs.
@@ -49,6 +50,24 @@ Theorem accepted_is_prefix :
               (accepted (render cf fuel name id data None None fid)).
 Proof. exact accepted_is_prefix_l. Qed.
 Print Assumptions accepted_is_prefix.
+
+(* exactly which: a writer failing its (k+1)-th call accepted the first k Write calls of the
+   fault-free render, a writer of capacity b its first b bytes *)
+Theorem accepted_exact_calls :
+  forall cf fuel name id data fid k,
+    refuses (Some k) None (rr_writes (render cf fuel name id data None None fid)) ->
+    rr_writes (render cf fuel name id data (Some k) None fid) =
+    firstn k (rr_writes (render cf fuel name id data None None fid)).
+Proof. exact accepted_exact_calls_l. Qed.
+Print Assumptions accepted_exact_calls.
+
+Theorem accepted_exact_bytes :
+  forall cf fuel name id data fid b,
+    refuses None (Some b) (rr_writes (render cf fuel name id data None None fid)) ->
+    accepted (render cf fuel name id data None (Some b) fid) =
+    take (N.to_nat b) (accepted (render cf fuel name id data None None fid)).
+Proof. exact accepted_exact_bytes_l. Qed.
+Print Assumptions accepted_exact_bytes.
 
 (* a nil error means every Write call of the fault-free render was made and accepted *)
 Theorem nil_means_all_written :
